@@ -218,7 +218,7 @@ def step (st : DState) (line : String) : DState × List String :=
     | some h, some n =>
       match parseCandles n rest with
       | none => (st, ["bad-op"])
-      | some (cs, _) => hexOp st (h.append cs (param ps "enc" == some "candle"))
+      | some (cs, _) => hexOp st (h.append cs)
     | _, _ => (st, ["bad-op"])
   | "hcalc" :: rest =>
     let (ps, _) := splitParams rest
